@@ -1,6 +1,6 @@
 def heap_obligations(tier, mmf, prefix):
     T = tier == "thorough"
-    nm_ = 9 if T else 6
+    nm_ = 15 if T else 6
     obs = []
     for ent, nm, what in (("h_add", "timerqueue-add", "add: heap order, every handle identifies its element, stored pointer/time, getmin least; (ptrheap_add sift-up with notification on every swap)"),
                           ("h_delete", "timerqueue-delete-by-handle", "delete(handle) of ANY element: intended element and no other removed, heap order, all other handles still valid (interior deletion: move last into the hole, sift up or down)"),
@@ -8,13 +8,15 @@ def heap_obligations(tier, mmf, prefix):
                           ("h_decrease_increasemin", "ptrheap-decrease-increasemin", "ptrheap_decrease(handle) / ptrheap_increasemin after a key change in the permitted direction"),
                           ("h_getptr", "timerqueue-getptr", "getptr(t): releases the stored pointer of a least entry iff its time <= t, nothing later than t, remaining heap valid"),
                           ("h_create", "ptrheap-create", "ptrheap_create from an arbitrary array: heap order, one position notification per element")):
-      for lo, hi in [(0, 3)] + [(k, k) for k in range(4, nm_ + 1)]:
+      # sizes: every count up to nm_, plus 9, 12, 13 (4-level trees: e.g. interior deletion needs >= 12 elements to sift up two levels from depth 3)
+      sizes = [(0, 3)] + [(k, k) for k in range(4, nm_ + 1)] + ([] if (mmf or T) else [(9, 9), (12, 12), (13, 13)])
+      for lo, hi in sizes:
         if ent == "h_create" and lo > 6: continue
-        obs.append(dict(name=prefix + nm + "-n%d-%d" % (lo, hi), harness="../C13/heap.c", entry=ent, defs=["NLO=%d" % lo, "NMAX=%d" % hi] + (["MMF"] if mmf else []), unwind=nm_ + 6, mmf=mmf,
+        obs.append(dict(name=prefix + nm + "-n%d-%d" % (lo, hi), harness="../C13/heap.c", entry=ent, defs=["NLO=%d" % lo, "NMAX=%d" % hi] + (["MMF"] if mmf else []), unwind=max(nm_, hi) + 6, mmf=mmf,
                         unwindset=["heapify#0:6", "heapifyup#0:6", "timerqueue_free#0:%d" % (nm_ + 3)],
                         flags=["--object-bits", "12"] + (["--memory-leak-check"] if mmf else []), backends=["cadical"], timeout=1800 if T else 280,
                         claim=what + (" [every allocation may fail independently: NULL/-1 reported, queue unchanged, no leak]" if mmf else ""),
-                        bounds="element counts %d..%d (this obligation; together 0..%d), times in a 4x3 domain (ties frequent), handles/new times symbolic" % (lo, hi, nm_),
+                        bounds="element counts %d..%d (this obligation; together 0..%d), times in a 6x3 domain spanning the whole time_t range (ties frequent, differences beyond 2^31 present), handles/new times symbolic" % (lo, hi, nm_),
                         stubs=["malloc/realloc/free: CBMC models" + (" with --malloc-may-fail --malloc-fail-null" if mmf else "")]))
     return obs
 
@@ -22,5 +24,5 @@ def obligations(tier):
     return heap_obligations(tier, False, "")
 
 TRUSTED = ["CBMC 6.11 C semantics and heap model", "cadical"]
-ASSUMPTIONS = ["sizes from empty to %d entries; 'thousands of entries' is outside the bound (the sift loops are the same code at every depth)" % 10]
+ASSUMPTIONS = ["sizes from empty to 13 entries (quick: 0..6, 9, 12, 13; thorough: 0..15); 'thousands of entries' is outside the bound (the sift loops are the same code at every depth)"]
 EXPLANATION = ""
